@@ -21,6 +21,9 @@ struct Tl {
     max_ticks: usize,
     max_drops: usize,
     seed: u64,
+    /// every finite timeout (and the explorer's time grid) is multiplied by this: 1, or 101
+    /// for the seconds-range configurations (20 ms -> 2.02 s)
+    scale: u64,
 }
 
 struct X {
@@ -33,6 +36,19 @@ struct X {
 const UNBOUNDED: u64 = u64::MAX / 4;
 
 fn timeout_of(per_request: bool, key: u8) -> u64 {
+    timeout_of_scaled(per_request, key, 1)
+}
+
+fn timeout_of_scaled(per_request: bool, key: u8, scale: u64) -> u64 {
+    let t = base_timeout(per_request, key);
+    if t == UNBOUNDED || (per_request && key == 4) {
+        t
+    } else {
+        t * scale
+    }
+}
+
+fn base_timeout(per_request: bool, key: u8) -> u64 {
     if per_request && key == 1 {
         30
     } else if per_request && key == 2 {
@@ -69,13 +85,16 @@ impl Scenario for Tl {
         "C06"
     }
     fn label(&self) -> String {
-        format!("timelimiter cancel={} per_request={} callers={} select_seed={}{}", self.cancel, self.per_request, self.callers, self.seed, if self.flag_first { " builder_order=flag_first" } else { "" })
+        format!("timelimiter cancel={} per_request={} callers={} select_seed={}{}", self.cancel, self.per_request, self.callers, self.seed, if self.flag_first { " builder_order=flag_first" } else if self.scale != 1 { " x101" } else { "" })
     }
     fn callers(&self) -> usize {
         self.callers
     }
     fn rng_seed(&self) -> u64 {
         self.seed
+    }
+    fn grid_ms(&self) -> u64 {
+        10 * self.scale
     }
     fn init(&self, w: &mut World) -> X {
         let inner = GatedInner::new(w.inner.clone());
@@ -86,7 +105,14 @@ impl Scenario for Tl {
                 }
                 dur(timeout_of(true, r.key))
             }
-            let f: fn(&Req) -> Duration = per_req;
+            fn per_req_x101(r: &Req) -> Duration {
+                if r.key == 4 {
+                    return Duration::from_micros(9750);
+                }
+                dur(timeout_of_scaled(true, r.key, 101))
+            }
+            assert!(self.scale == 1 || self.scale == 101);
+            let f: fn(&Req) -> Duration = if self.scale == 101 { per_req_x101 } else { per_req };
             let layer = if self.flag_first {
                 TimeLimiterLayer::builder().cancel_running_future(self.cancel).timeout_fn(f).build()
             } else {
@@ -101,9 +127,9 @@ impl Scenario for Tl {
             })
         } else {
             let layer = if self.flag_first {
-                TimeLimiterLayer::builder().cancel_running_future(self.cancel).timeout_duration(Duration::from_millis(20)).build()
+                TimeLimiterLayer::builder().cancel_running_future(self.cancel).timeout_duration(Duration::from_millis(20 * self.scale)).build()
             } else {
-                TimeLimiterLayer::builder().timeout_duration(Duration::from_millis(20)).cancel_running_future(self.cancel).build()
+                TimeLimiterLayer::builder().timeout_duration(Duration::from_millis(20 * self.scale)).cancel_running_future(self.cancel).build()
             };
             let svc = layer.layer(inner);
             Box::new(move |req: Req| {
@@ -143,7 +169,7 @@ impl Scenario for Tl {
         let now = w.now_ms();
         for (c, cl) in w.callers.iter().enumerate() {
             let (Some(req), Some(t0)) = (&cl.req, cl.first_poll_ms) else { continue };
-            let deadline = t0 + timeout_of(self.per_request, req.key);
+            let deadline = t0 + timeout_of_scaled(self.per_request, req.key, self.scale);
             let g = w.inner.lock().unwrap();
             let call = g.calls.iter().find(|k| k.req.id == req.id);
             // instant at which the inner result became available (gate opened)
@@ -232,7 +258,7 @@ impl Scenario for Tl {
         let mut deadlines = std::collections::BTreeSet::new();
         for cl in &w.callers {
             if let (Some(r), Some(t0), true) = (&cl.req, cl.first_poll_ms, cl.is_live()) {
-                deadlines.insert(t0 + timeout_of(self.per_request, r.key));
+                deadlines.insert(t0 + timeout_of_scaled(self.per_request, r.key, self.scale));
             }
             if matches!(&cl.phase, Phase::Done(Outcome::Layer(_))) {
                 v.push("timed_out");
@@ -306,7 +332,7 @@ impl Scenario for Tl {
             for (c, cl) in w.callers.iter().enumerate() {
                 if let (Phase::Done(Outcome::Layer(_)), Some(r)) = (&cl.phase, &cl.req) {
                     if !g.calls.iter().any(|k| k.req.id == r.id) {
-                        out.push(Viol::new("background_call_never_started", site, format!("caller {c} (timeout {}ms) timed out and its request never reached the inner service", timeout_of(self.per_request, r.key))));
+                        out.push(Viol::new("background_call_never_started", site, format!("caller {c} (timeout {}ms) timed out and its request never reached the inner service", timeout_of_scaled(self.per_request, r.key, self.scale))));
                     }
                 }
             }
@@ -329,10 +355,12 @@ fn configs(tier: Tier) -> Vec<Tl> {
             for seed in seeds {
                 // thorough: three callers under the first select! seed
                 let callers = if tier == Tier::Thorough && seed == 1 { 3 } else { 2 };
-                v.push(Tl { flag_first: false, cancel, per_request, callers, max_ticks: tier.pick(4, 6), max_drops: 1, seed });
+                v.push(Tl { flag_first: false, cancel, per_request, callers, max_ticks: tier.pick(4, 6), max_drops: 1, seed, scale: 1 });
             }
             // the same with the builder calls in the other order
-            v.push(Tl { flag_first: true, cancel, per_request, callers: 2, max_ticks: tier.pick(4, 5), max_drops: 1, seed: 1 });
+            v.push(Tl { flag_first: true, cancel, per_request, callers: 2, max_ticks: tier.pick(4, 5), max_drops: 1, seed: 1, scale: 1 });
+            // timeouts in the seconds range (2.02 s / 3.03 s on a 1.01 s grid)
+            v.push(Tl { flag_first: false, cancel, per_request, callers: 2, max_ticks: tier.pick(4, 5), max_drops: 1, seed: 1, scale: 101 });
         }
     }
     v
